@@ -204,6 +204,8 @@ class Ctx:
         except (Violation, Inconclusive, Rejected, StopShrink):
             raise
         except Exception as e:  # noqa
+            if type(e).__module__.startswith("vpm"):
+                raise          # raised by the harness itself (budgets, time-outs), only passing through msdm frames
             tb = traceback.extract_tb(e.__traceback__)
             where = ""
             for fr in reversed(tb):
